@@ -229,6 +229,9 @@ class Dm1:
         if not cookie.get('active', True):
             # stop_send was called while the data callback was running
             return False
+        if self._ca.state != j1939.ControllerApplication.State.NORMAL:
+            # the address was lost while the data callback was running
+            return True
 
         # create payload - lamp status
         self._data = DtcLamp().get_data(self._lamp_status)
